@@ -207,7 +207,7 @@ def check(report, res):
                 name, _, unit = hdr[j].partition(' (')
                 unit = unit.replace(')', '')
                 got = prof.get((key, name, unit, str(year)))
-                if got is None or got != str(row[j]):
+                if got is None or got != ('' if row[j] is None else str(row[j])):
                     problems.append(('csv_mismatch', 'csv_profile_cell', f'{key}/{hdr[j]}/year {year}: csv {got!r} vs result {row[j]!r}'))
                     bad = True
                     break
